@@ -305,6 +305,7 @@ def main():
         # 5. classification
         known = load_known()
         total_n = total_ok = 0
+        bounded_n = bounded_ok = bounded_units = 0      # units labelled bounded: reported apart, never counted as proved
         unit_reports = []
         samples = []
         solver_s = 0.0
@@ -356,7 +357,11 @@ def main():
                     is_known = o.get('label') and any(k.startswith('known:') and ('property=%s ' % prop) in k and ('unit=%s ' % uid) in k and ('label=%s ' % o['label']) in k + ' ' for k in known)
                     if (tprops and prop not in tprops) or is_known:
                         foreign += 1
-                total_n += c['n'] - foreign; total_ok += c['discharged']
+                if u.get('bounded'):
+                    bounded_n += c['n'] - foreign; bounded_ok += c['discharged']; bounded_units += 1
+                    rep['bounded'] = u['bounded']
+                else:
+                    total_n += c['n'] - foreign; total_ok += c['discharged']
                 rep['status'] = 'ok' if not c['failed'] else 'failed'
             for o in c['failed']:
                 # a clause tagged with properties is that properties' obligation; untagged obligations (frames, safety,
@@ -408,6 +413,8 @@ def main():
             'property_id': prop, 'tier': a.tier, 'seed': seed, 'level': 'proof',
             'coverage': {
                 'obligations': total_n, 'discharged': total_ok,
+                'bounded_stand_ins': {'units': bounded_units, 'obligations': bounded_n, 'discharged': bounded_ok,
+                                      'note': 'units whose completeness rests on a stated bound (field bounded of each unit report); not included in obligations / discharged above'},
                 'checker_cmd': 'goto-cc --function harness <unit>.c; goto-instrument --dfcc harness --enforce-contract <fn> [--replace-call-with-contract <callee>]* [--apply-loop-contracts]; cbmc ' + ' '.join(U.CBMC_CHECKS),
                 'trusted_base': TRUSTED_BASE,
                 'functions_under_contract': fns_under_contract,
@@ -446,7 +453,7 @@ def main():
                     print(why)
             rc = rc or 2
         print('%s tier=%s units=%d obligations=%d discharged=%d violations=%d undecided=%d wall=%.1fs' % (
-            prop, a.tier, len(units), total_n, total_ok, len(violations), len(undecided), wall))
+            prop, a.tier, len(units), total_n, total_ok, len(violations), len(undecided), wall) + (' bounded_units=%d bounded_obligations=%d/%d' % (bounded_units, bounded_ok, bounded_n) if bounded_units else ''))
         sys.exit(rc)
     finally:
         if a.keep:
